@@ -135,7 +135,8 @@ class Producer(object):
         _logger.debug('Get item from source')
         item = yield from self._item_source.get_item()
 
-        if item:
+        # Only None means that nothing is available; 0 is a work item.
+        if item is not None:
             yield from self._item_queue.put_item(item)
             return item
 
@@ -147,10 +148,10 @@ class Producer(object):
         while self._running:
             item = yield from self.process_one()
 
-            if not item and self._item_queue.unfinished_items == 0:
+            if item is None and self._item_queue.unfinished_items == 0:
                 self.stop()
                 break
-            elif not item:
+            elif item is None:
                 yield from self._item_queue.wait_for_worker()
 
     def stop(self):
